@@ -193,6 +193,10 @@ func (*G1) FromAffineX(x *BaseFieldElementG1, b bool) (*PointG1, error) {
 	if ok != 1 {
 		return nil, curves.ErrInvalidCoordinates.WithMessage("x")
 	}
+	if !p.IsTorsionFree() {
+		// a point of E(Fp) outside G1 (e.g. (0, 2), of order 3), as FromAffine and FromCompressed refuse
+		return nil, curves.ErrSubGroupMembership.WithStackFrame()
+	}
 	y, err := p.AffineY()
 	if err != nil {
 		panic(err) // should never happen
